@@ -11,6 +11,9 @@ def run_harness(ck, eng, harness, name, kind='P'):
     except Unsupported as e:
         eng.unsupported(f'{name}::subset', str(e))
         return None
+    except (TypeError, AttributeError, KeyError, IndexError, ValueError):
+        eng.unsupported(f'{name}::subset', 'unmodelled operation: ' + traceback.format_exc()[-600:])
+        return None
 
 
 def report(ck, eng, replayers=None, kind='P', prefix=''):
